@@ -16,7 +16,8 @@ def main() -> None:
     na = []
     for pid in ALL:
         path = os.path.join(VERIF_ROOT, "vf", "checks", pid.lower() + ".py")
-        if not os.path.exists(path):
+        ready = open(os.path.join(VERIF_ROOT, "vf", "checks", "READY")).read().split()
+        if not os.path.exists(path) or pid not in ready:
             na.append({"property_id": pid, "reason": "check not built yet (work in progress; see DESIGN.md section %s for the planned monitor)" % pid})
             continue
         mod = importlib.import_module("vf.checks." + pid.lower())
